@@ -611,6 +611,9 @@ func (t *Collection) Len() (l int64, err error) {
 	if err != nil {
 		return
 	}
+	if si == nil {
+		return 0, nil
+	}
 	err = t.VisitItemsAscendEx(si.Key, false, visitor)
 	return
 }
